@@ -15,6 +15,7 @@ TReadBack == IsEvent("readback") /\ WReadBack(E.openRet, E.valRet, E.delivered, 
 TZck      == IsEvent("zck")      /\ WToolZck(E.status, E.f)
 TUnzck    == IsEvent("unzck")    /\ WToolUnzck(E.zckStatus, E.status, E.outEq)
 TUnzckF   == IsEvent("unzckf")   /\ WToolUnzckFaulty(E.status, E.outEq)
+TNoWrite  == IsEvent("nowrite")  /\ WNoWrite(E.ret, E.hdrEq, E.outEmpty)
 TToolF    == IsEvent("toolf")    /\ WToolFaulty(E.status, E.outOk)
 TRun      == IsEvent("run")      /\ WRun(E)
 \* a run that was already reported as a violation: recorded (to keep run numbers) but not compared again
@@ -24,7 +25,7 @@ TMinMax   == IsEvent("minmax")   /\ WMinMax(E.a, E.lo, E.hi)
 TForget   == IsEvent("forget")   /\ runs' = <<>> /\ UNCHANGED <<wlen, wok, wclosed>>
 
 Init == WInit /\ l = 1
-Next == TStart \/ TWrite \/ TEndChunk \/ TOption \/ TClose \/ TReadBack \/ TZck \/ TUnzck \/ TUnzckF \/ TToolF \/ TRun \/ TRunX \/ TPair \/ TMinMax \/ TForget
+Next == TStart \/ TWrite \/ TEndChunk \/ TOption \/ TClose \/ TReadBack \/ TZck \/ TUnzck \/ TUnzckF \/ TToolF \/ TNoWrite \/ TRun \/ TRunX \/ TPair \/ TMinMax \/ TForget
 Spec == Init /\ [][Next]_tvars
 Accepted == /\ PrintT(<<"MATCHED", TLCGet("stats").diameter - 1, Len(TraceLog)>>)
             /\ TLCGet("stats").diameter - 1 = Len(TraceLog)
